@@ -20,6 +20,7 @@ class Sched:
         self.pending = {}      # tid -> (action, object)
         self.done = set()
         self.trace = []        # (tid, action) in execution order
+        self.trace_ev = []     # (tid, action, object) in execution order (for the discipline replay)
         self.results = {}
         self.watchdog = watchdog
         self.lock_owner = {}   # id(lock wrapper) -> (tid, depth)
@@ -37,6 +38,7 @@ class Sched:
             while self.cur != tid:
                 self.cv.wait()
             self.trace.append((tid, action))
+            self.trace_ev.append((tid, action, obj))
 
     def enabled(self, tid):
         act, obj = self.pending.get(tid, (None, None))
@@ -130,21 +132,37 @@ class SLock:
 
 
 class SDeque(collections.deque):
+    """A deque whose shared accesses are yield points; it also logs what was appended and popped (in order)."""
+
+    def _log(self, name):
+        d = self.__dict__
+        if name not in d:
+            d[name] = []
+        return d[name]
+
     def __bool__(self):
-        yp('bool')
+        yp('bool', self)
         return super().__len__() > 0
 
+    def __len__(self):
+        yp('bool', self)          # `while len(deque):` is an emptiness test as well
+        return super().__len__()
+
     def popleft(self):
-        yp('popleft')
-        return super().popleft()
+        yp('popleft', self)
+        x = super().popleft()
+        self._log('pops').append(x)
+        return x
 
     def append(self, x):
-        yp('append')
+        yp('append', self)
+        self._log('apps').append(x)
         return super().append(x)
 
     def extend(self, xs):
         for x in xs:
-            yp('append')
+            yp('append', self)
+            self._log('apps').append(x)
             super().append(x)
 
 
